@@ -108,6 +108,19 @@ def run_generic(pid, profile, tier, seed, domains=None, extra_domains=(), n_quic
             for h in hs:
                 nontriv.add(json.dumps(h["steps"], sort_keys=True))
         ck.cov["directed_family_2"] = {"name": "dup_disjunct_history", "histories": nf2, "domains": len(doms)}
+    if pid == "C04":    # directed family: bounds plus weak relational constraints against stronger relational constraints
+        rdoms2 = [d for d in doms if d in ("split_dbm", "sparse_dbm", "split_oct", "sdbm_ss", "sdbm_pt", "sdbm_ht", "sdbm_safe", "sdbm_big",
+                                          "spdbm_safe", "soct_safe", "term_sdbm", "as_sdbm", "pack_sdbm", "bool_dbm", "pow_sdbm", "ref_split_dbm",
+                                          "ref_split_oct", "num_product", "fixed_tvpi", "intervals")]
+        nfb = 400 if tier == "quick" else 6000
+        for off in range(0, nfb, 1000):
+            hs = [hist.bounds_diff_leq_history(ck.rng, 550000 + off + i, params=ck.rng.choice(PARAMS)) for i in range(min(1000, nfb - off))]
+            fails, knowns, _ = domops.run_batch(ck, "fambd%d" % off, hs, rdoms2, box=box, univ=univ, timeout=3000)
+            allf += fails
+            allk += knowns
+            for h in hs:
+                nontriv.add(json.dumps(h["steps"], sort_keys=True))
+        ck.cov["directed_family_4"] = {"name": "bounds_diff_leq_history", "histories": nfb, "domains": rdoms2}
     if pid == "C04":    # second directed family: inclusion between values of the disjunctive domains
         ddoms = [d for d in doms if d in ("pow_int", "pow_sdbm", "dis_intervals", "vp_int", "term_dis_int", "ric", "congruences", "intervals")]
         nf = 200 if tier == "quick" else 1500
